@@ -7,7 +7,7 @@ import registry
 import not_applicable
 
 checks = []
-for pid in sorted(registry.PROPS):
+for pid in sorted(registry.CLAIMED):
     cfg = registry.PROPS[pid]
     has_thorough = any(g.get("tier") == "thorough" or g.get("thorough_harnesses") for g in cfg["groups"])
     c = {
@@ -49,12 +49,12 @@ manifest = {
     "engines": [{
         "name": "kani-cbmc",
         "path": "/verif/kani",
-        "serves_properties": sorted(registry.PROPS),
+        "serves_properties": sorted(registry.CLAIMED),
         "kind_free_text": "cargo-kani 0.68 (CBMC 6.11 + CaDiCaL) over a scratch copy of /repo/core regenerated on every run; "
                           "model crates for third-party dependencies; native replay crate /verif/replay against the real build",
     }],
     "checks": checks,
-    "not_applicable": [{"property_id": k, "reason": v} for k, v in sorted(not_applicable.NA.items()) if k not in registry.PROPS],
+    "not_applicable": [{"property_id": k, "reason": v} for k, v in sorted(not_applicable.NA.items()) if k not in registry.CLAIMED],
     "notes": "See DESIGN.md. known_findings.txt lists recorded findings and fixed defects.",
 }
 json.dump(manifest, open(os.path.join(ROOT, "MANIFEST.json"), "w"), indent=1)
